@@ -53,6 +53,7 @@ def run(chk):
     chk.validate('TraceBDD', 'TraceBDD.cfg', sh_stream)
     # supports of 54-70 variables: the counting laws (complement, doubling, closed forms) in
     # big-number arithmetic written in TLA+ (BigNat.tla, TraceBig.tla)
+    chk.mc('MC_BigNat', 'MC_BigNat.cfg')      # the big-number arithmetic agrees with TLC's integers where those suffice
     from harness.drivers import wide as _wide
     bt = [dict(shard=chk.shard('big_c10_%d' % i), tid0=10900000 + i * 100, seed=chk.seed * 7 + i,
                ntraces=chk.th(2, 30)) for i in range(4)]
